@@ -4209,6 +4209,28 @@ async fn handle_connected_state_no_dtls(
     inner_weak: &std::sync::Weak<PeerConnectionInner>,
     ice_state_rx: &mut watch::Receiver<crate::transports::ice::IceTransportState>,
 ) -> bool {
+    // SDES keys are taken from the a=crypto lines of BOTH descriptions. An
+    // answerer reaches this point as soon as the remote offer is applied,
+    // possibly well before the application applies its own answer: wait for
+    // that instead of failing the connection for good.
+    loop {
+        let Some(inner) = inner_weak.upgrade() else {
+            return false;
+        };
+        if inner.config.transport_mode != TransportMode::Srtp {
+            break;
+        }
+        let mut signaling_rx = inner.signaling_state.subscribe();
+        let both_set = inner.local_description.lock().is_some()
+            && inner.remote_description.lock().is_some();
+        if both_set || *signaling_rx.borrow() == SignalingState::Closed {
+            break;
+        }
+        drop(inner);
+        if signaling_rx.changed().await.is_err() {
+            return false;
+        }
+    }
     if let Some(inner) = inner_weak.upgrade() {
         let pc_temp = PeerConnection {
             inner: inner.clone(),
